@@ -206,7 +206,7 @@ def window_op(chk, rule, facts, C, bd, label, lens, reduce_, op, WN=2, irredunda
     return v
 
 
-def window_to_lut(chk, rule, facts, C, bd, label, n, varset, L, reduce_, lut_words):
+def window_to_lut(chk, rule, facts, C, bd, label, n, varset, L, reduce_, lut_words, only_high=False):
     """Conversion of a container of L real terms (symbolic only on the variables in varset, e.g. {0, 6, 7} of n = 8:
     low and block-selecting variables) to a Lut: every table bit m of the result, as a function of the term atoms,
     equals the OR / XOR of the term denotations at m, and bits >= 2^n are 0.  Window mode without path splitting
@@ -268,6 +268,8 @@ def window_to_lut(chk, rule, facts, C, bd, label, n, varset, L, reduce_, lut_wor
                 def am(name):
                     return space.var[B.ATOMS.get(name)]
                 for m in range(len(bits)):
+                    if only_high and m < (1 << n):
+                        continue        # representation invariant only: the denotation is another property's business
                     got = space.bit_mask(bits[m]) if bits[m] is not None else None
                     if got is None:
                         raise Undecided("table bit %d not exact" % m)
@@ -310,7 +312,7 @@ def window_to_lut(chk, rule, facts, C, bd, label, n, varset, L, reduce_, lut_wor
     return v
 
 
-def to_lut_rules(chk, rule, facts, C, reduce_, tier):
+def to_lut_rules(chk, rule, facts, C, reduce_, tier, only_high=False):
     """conversions <Lut as From<&Container>> on real terms: n = 3, 7, 8 with low and block-selecting variables"""
     from .harness import Env
     env = Env(facts)
@@ -324,14 +326,12 @@ def to_lut_rules(chk, rule, facts, C, reduce_, tier):
         if base.get("path") != C.adt:
             continue
         found += 1
-        if src["k"] != "ref" and tier != "thorough":
-            continue
         label = "<Lut as %s>::from" % tr["s"]
         plans = [(3, {0, 1, 2}, 1), (3, {0, 2}, 2), (7, {0, 5, 6}, 1), (7, {1, 6}, 2), (8, {0, 6, 7}, 1), (8, {6, 7}, 2), (8, {5, 7}, 2)]
         if tier == "thorough":
             plans += [(9, {0, 7, 8}, 1), (9, {6, 7, 8}, 2), (10, {6, 8, 9}, 2)]
         for n, varset, L in plans:
-            window_to_lut(chk, rule, facts, C, bd, label, n, varset, L, reduce_, lambda it, st, v: KD.words(it, st, v))
+            window_to_lut(chk, rule, facts, C, bd, label, n, varset, L, reduce_, lambda it, st, v: KD.words(it, st, v), only_high)
     return found
 
 
